@@ -48,6 +48,11 @@ def setup(J):
             # ... and with a path that steps through a parent directory (sub/../name.stream)
             jobs.append({"id": "C17-n1-s1-m2-stream-path-with-parent-step", "prop": "C17", "kind": "stream", "mode": "delay", "delay": 1, "budget": J.budget(tier, 30, 200), "oracles": [], "events_dep": False, "force_all": -1,
                          "args": {"n": "1", "size": "1", "max": "2", "midparent": "1"}})
+            # the consumer has a second, ordinary in-port whose upstream closes long before the producer is done
+            # (Run may not return before the pipe is removed); both orders of the consumer's in-port map
+            for fa in (-1, 1):
+                jobs.append({"id": f"C17-n1-s1-m2-consumer-second-in-port-mo{fa}", "prop": "C17", "kind": "stream", "mode": "delay", "delay": 1, "budget": J.budget(tier, 30, 200), "oracles": [], "events_dep": False, "force_all": fa,
+                             "args": {"n": "1", "size": "1", "max": "2", "hdr": "1"}})
             # two streamed items in flight: a pass-through process notes the order in which they leave the producer
             for size, mx in ((1, 4),) if q else ((1, 4), (65537, 4), (1, 5)):
                 jobs.append({"id": f"C17-n2-s{size}-m{mx}-order", "prop": "C17", "kind": "stream", "mode": "delay", "delay": 1, "budget": J.budget(tier, 40, 300), "oracles": [], "events_dep": False, "force_all": -1,
@@ -70,5 +75,5 @@ def setup(J):
                 jobs.append(nj)
             return jobs
         return {"level": "model_checking", "stages": [stage1, stage2],
-                "rule": "real mkfifo + real bash producer/consumer under the controlled scheduler (exec seam in async mode: child exits are observed only when no controlled thread can run, so the set of exited children is a function of the state): n in {1,2} streamed items, maxConcurrentTasks in {2n, 2n+1}, payload in {0, 1, 4096, 65537, 300000} bytes, all schedules with <= 1 delay (smallest scenario: <= 3 delays within the budget); then the history 'run again in place'; + a stale regular file at the streaming path / at the FIFO path before the run + a pass-through process noting the order of 2 streamed items + the streaming output declared with an absolute path in a new directory; oracle: consumer bytes = payload, streamed items leave the producer in arrival order, a stale file is left untouched, no regular file at the streaming path, no FIFO / temp dir left, consumer audit names the producer upstream, second run terminates (no child stuck on a FIFO, judged from /proc/<pid>/stack) and leaves the consumer's output untouched",
+                "rule": "real mkfifo + real bash producer/consumer under the controlled scheduler (exec seam in async mode: child exits are observed only when no controlled thread can run, so the set of exited children is a function of the state): n in {1,2} streamed items, maxConcurrentTasks in {2n, 2n+1}, payload in {0, 1, 4096, 65537, 300000} bytes, all schedules with <= 1 delay (smallest scenario: <= 3 delays within the budget); then the history 'run again in place'; + a stale regular file at the streaming path / at the FIFO path before the run + a pass-through process noting the order of 2 streamed items + the streaming output declared with an absolute path in a new directory + a consumer with a second ordinary in-port (both orders of its in-port map); oracle: consumer bytes = payload, streamed items leave the producer in arrival order, a stale file is left untouched, no regular file at the streaming path, no FIFO / temp dir left, consumer audit names the producer upstream, second run terminates (no child stuck on a FIFO, judged from /proc/<pid>/stack) and leaves the consumer's output untouched",
                 "assumptions": ["what happens inside the kernel pipe and the two bash processes is observed, not scheduled", "a child is declared stuck when every process of its tree sleeps in fifo_open/pipe_read/pipe_write/do_wait unchanged over 4 samples (cap 20 s)", "delay-bounded (k=1), not closed"]}
